@@ -73,7 +73,11 @@ Inductive tree :=
 | JsonRoundTrip (t : tree)                    (* empty.UnmarshalJSON(t.MarshalJSON()) *)
 | ListOf (t : tree)                           (* dt.List.Populate(t); list.Iterator() *)
 | StackOf (t : tree)                          (* dt.Stack.Populate(t); stack.Iterator()  (LIFO) *)
-| SliceOf (t : tree).                         (* SliceIterator(risky.Slice(t)) *)
+| SliceOf (t : tree)                          (* SliceIterator(risky.Slice(t)) *)
+| JsonArr (l : list (option Z))               (* empty.UnmarshalJSON("[1,null,3]"), element type int64; None = null *)
+| JsonRecs (l : list (option (option Z * option Z))).
+    (* empty.UnmarshalJSON(`[{"a":1},{"b":2},null,{}]`), element type struct{A,B int64 (omitempty)}, then
+       ConvertIterator to A*100+B; None = null, a missing field = None *)
 
 Inductive terminal :=
 | TReadAll                     (* ReadOne until error, two more ReadOne, Close *)
@@ -267,6 +271,13 @@ Fixpoint rd (n : nat) (s : st) {struct n} : option (out * st) :=
 
 Definition iter (h : hook) (p : st) : st := SIter false [] h p.
 
+(* Iterator.UnmarshalJSON's decoder closure: json.Unmarshal(rv[idx], &out) where out is the closure's
+   named result, i.e. a FRESH zero value for every element: the decoded value is a function of that raw
+   element alone (null and absent fields leave the zero value). *)
+Definition dflt (o : option Z) : Z := match o with Some z => z | None => 0%Z end.
+Definition dec_rec (o : option (option Z * option Z)) : Z :=
+  match o with None => 0%Z | Some (a, b) => (dflt a * 100 + dflt b)%Z end.
+
 Definition idx_fun : ufun := fun k v => OVal (Z.of_nat k * 1000 + v)%Z.
 Definition id_fun : ufun := fun _ v => OVal v.
 
@@ -292,6 +303,9 @@ Fixpoint init (t : tree) : st :=
   | ListOf t => iter HNone (SPipeP KList false [] (init t))
   | StackOf t => iter HNone (SPipeP KStack false [] (init t))
   | SliceOf t => iter HNone (SPipeP KSliceOf false [] (init t))
+  | JsonArr l => iter HNone (SJoinP 0 OEof OEof (SSlice [] (-1)) (SQueue (map dflt l)))
+  | JsonRecs l => iter HNone (STransformP id_fun 0
+                    (iter HNone (SJoinP 0 OEof OEof (SSlice [] (-1)) (SQueue (map dec_rec l)))))
   end.
 
 (* ------------------------------------------------------------------ terminal consumers *)
@@ -464,6 +478,8 @@ Fixpoint den (t : tree) : list Z * out * list Z :=
   | ListOf t => let '(vs, _, _) := den t in (vs, OEof, [])
   | StackOf t => let '(vs, _, _) := den t in (rev vs, OEof, [])
   | SliceOf t => let '(vs, _, _) := den t in (vs, OEof, [])
+  | JsonArr l => (map dflt l, OEof, [])
+  | JsonRecs l => (map dec_rec l, OEof, [])
   end.
 
 Definition dvals (t : tree) : list Z := fst (fst (den t)).
@@ -533,6 +549,8 @@ Fixpoint tsize (t : tree) : nat :=
   | Join t ts => S (tsize t + fold_right (fun x a => S (tsize x) + a) 0 ts)
   | Chain ts => S (fold_right (fun x a => S (tsize x) + a) 0 ts)
   | MergeSlices ls => S (length (concat ls))
+  | JsonArr l => S (S (length l))
+  | JsonRecs l => S (S (S (S (length l))))
   end.
 
 Definition default_fuel (t : tree) : nat := 40 + 8 * tsize t.
